@@ -130,6 +130,51 @@ std::string allocctC(const std::string & ct, std::size_t N, const std::vector<u6
   if (ct == "u8") return allocctN<L, unsigned char>(N, sz);
   return "unsupported";
 }
+// curve storage beneath an array whose INDEX type is narrow (size_t coordinates): the storage length must not be formed in the
+// index type (2^bits cells are addressable with indices 0 .. 2^bits - 1)   -> "<storage length> <cells lost>"
+template <int L, typename IX, std::size_t N>
+std::string run_allocix(const std::vector<u64> & sz) {
+  using A = backend::array<vector::float1, IX>;
+  using V = vector::vector_d<std::size_t, N>;
+  using SA = backend::strided<V, A>;
+  std::size_t total = 1; for (auto s : sz) total *= s;
+  typename SA::configuration_t scfg; for (std::size_t k = 0; k < N; ++k) scfg[k] = sz[k];
+  field<SA> src(make_parameter_pack(std::move(scfg), typename A::configuration_t{total}));
+  typename field<SA>::view_t sv(src);
+  std::vector<u64> c(N, 0);
+  for (u64 k = 0; k < total; ++k) {
+    typename field<SA>::coordinate_t cc; for (std::size_t d = 0; d < N; ++d) cc[d] = c[d];
+    sv.at(cc)[0] = static_cast<float>(k + 1);
+    for (std::size_t d = N; d-- > 0;) { if (++c[d] < sz[d]) break; c[d] = 0; }
+  }
+  using LA = typename layer<L, V, A>::type;
+  field<LA> dst(src);
+  typename field<LA>::view_t dv(dst);
+  std::fill(c.begin(), c.end(), 0);
+  u64 wrong = 0;
+  for (u64 k = 0; k < total; ++k) {
+    typename field<LA>::coordinate_t cc; for (std::size_t d = 0; d < N; ++d) cc[d] = c[d];
+    if (dv.at(cc)[0] != static_cast<float>(k + 1)) ++wrong;
+    for (std::size_t d = N; d-- > 0;) { if (++c[d] < sz[d]) break; c[d] = 0; }
+  }
+  return std::to_string(dst.backend().get_backend().get_configuration()[0]) + " " + std::to_string(wrong);
+}
+template <int L, typename IX>
+std::string allocixN(std::size_t N, const std::vector<u64> & sz) {
+  if constexpr (L == 3) { if (N == 2) return run_allocix<L, IX, 2>(sz); return "unsupported"; }
+  else {
+    switch (N) { case 1: return run_allocix<L, IX, 1>(sz); case 2: return run_allocix<L, IX, 2>(sz); case 3: return run_allocix<L, IX, 3>(sz);
+                 case 4: return run_allocix<L, IX, 4>(sz); }
+    return "unsupported";
+  }
+}
+template <int L>
+std::string allocixC(const std::string & ct, std::size_t N, const std::vector<u64> & sz) {
+  if (ct == "u8") return allocixN<L, unsigned char>(N, sz);
+  if (ct == "u16") return allocixN<L, unsigned short>(N, sz);
+  if (ct == "u32") return allocixN<L, unsigned>(N, sz);
+  return "unsupported";
+}
 // where does the library's converting constructor put coordinate `co`? (storage position observed directly, not through at())
 template <int L, std::size_t N>
 std::string run_convpos(const std::vector<u64> & sz, const std::vector<u64> & co) {
@@ -197,13 +242,14 @@ int main() {
   while (std::getline(std::cin, line)) {
     std::istringstream is(line);
     std::string op, lay, ct = "u64"; std::size_t N = 0;
-    is >> op >> lay; if (op == "idx" || op == "allocct") is >> ct; is >> N;
+    is >> op >> lay; if (op == "idx" || op == "allocct" || op == "allocix") is >> ct; is >> N;
     std::vector<u64> sz(N), co(N); std::string bar;
     for (auto & s : sz) is >> s;
-    if (op != "alloc" && op != "allocct") { is >> bar; for (auto & c : co) is >> c; }
+    if (op != "alloc" && op != "allocct" && op != "allocix") { is >> bar; for (auto & c : co) is >> c; }
     std::string r = "unsupported";
     int L = layId(lay);
-    if (op == "allocct") { r = L == 1 ? allocctC<1>(ct, N, sz) : L == 2 ? allocctC<2>(ct, N, sz) : L == 3 ? allocctC<3>(ct, N, sz) : r; }
+    if (op == "allocix") { r = L == 1 ? allocixC<1>(ct, N, sz) : L == 2 ? allocixC<2>(ct, N, sz) : L == 3 ? allocixC<3>(ct, N, sz) : r; }
+    else if (op == "allocct") { r = L == 1 ? allocctC<1>(ct, N, sz) : L == 2 ? allocctC<2>(ct, N, sz) : L == 3 ? allocctC<3>(ct, N, sz) : r; }
     else if (op == "idx") { r = L == 0 ? idxC<0>(ct, N, sz, co) : L == 1 ? idxC<1>(ct, N, sz, co) : L == 2 ? idxC<2>(ct, N, sz, co) : L == 3 ? idxC<3>(ct, N, sz, co) : r; }
     else { r = L == 0 ? otherN<0>(op, N, sz, co) : L == 1 ? otherN<1>(op, N, sz, co) : L == 2 ? otherN<2>(op, N, sz, co) : L == 3 ? otherN<3>(op, N, sz, co) : r; }
     std::cout << r << std::endl;
